@@ -8,8 +8,9 @@ import sys
 import time
 
 VERIF = os.path.dirname(os.path.dirname(os.path.abspath(__file__)))
-REPLAYS = os.path.join(VERIF, "replays")
-EVIDENCE = os.path.join(VERIF, "evidence")
+REPLAYS = os.path.join(os.environ["VF_EVIDENCE_DIR"], "replays") if os.environ.get("VF_EVIDENCE_DIR") else os.path.join(VERIF, "replays")
+# VF_EVIDENCE_DIR: mutation tooling only (runs against a patched scratch worktree must not touch the real evidence)
+EVIDENCE = os.environ.get("VF_EVIDENCE_DIR") or os.path.join(VERIF, "evidence")
 KF_FILE = os.path.join(VERIF, "known_findings.json")
 
 
